@@ -101,20 +101,7 @@ package s2
 //@   requires l != nil
 //@   ensures [origin-bit] result.Contained == l.originInside && vcSame(result.Point, OriginPoint())
 
-// ---------------------------------------------------------------- Invert: the complement loop
-
-// Inverting a loop flips its origin bit (so every crossing parity from OriginPoint is complemented), reverses the
-// vertex order of an ordinary loop, and hands the loop to a reset index again (one shape, to be rebuilt on next use).
-//@ func (l *Loop) Invert()
-//@   requires l != nil && l.index != nil && !vcHeld(&l.index.mu) && len(l.vertices) >= 1
-//@   modifies l.vertices[*], l.originInside, l.bound, l.subregionBound, *l.index
-//@   noframe
-//@   ensures [origin-flipped] l.originInside == !old(l.originInside)
-//@   ensures [reversed] len(l.vertices) > 1 ==> (forall k int :: 0 <= k && k < len(l.vertices) ==> vcSame(l.vertices[k], vcPreElem(old(l.vertices), len(l.vertices)-1-k)))
-//@   ensures [same-length] len(l.vertices) == old(len(l.vertices))
-//@   ensures [reindexed] vcSI(l.index) && l.index.nextID == 1 && l.index.status == stale
-//@   loop 1 (i int): invariant [range] -1 <= i && i < len(l.vertices)/2 && len(l.vertices) == old(len(l.vertices))
-//@   loop 1: invariant [swapped] forall k int :: 0 <= k && k < len(l.vertices) ==> vcSame(l.vertices[k], vcIf(k > i && k < len(l.vertices)-1-i, vcPreElem(old(l.vertices), len(l.vertices)-1-k), vcPreElem(old(l.vertices), k)))
+// Loop.Invert (origin bit flipped, vertices reversed, loop re-registered): contract in vc_state_verif.go (tagged C13 and C04)
 
 // ---------------------------------------------------------------- the index path of a polygon (edges come from the Shape interface)
 
